@@ -134,6 +134,36 @@ pub fn eval_tag(c: &TagCase, obs: &mut Obs) -> Result<(), String> {
     Ok(())
 }
 
+/// Every kind's conformant image at every declared size 8..=len+16, the image cut
+/// or padded to the declared size so that the tag's padded extent ends at the
+/// guard page (the counts and indices inside keep their values: whatever no
+/// longer fits must be rejected, not read).
+fn enumerate_tags(ctx: &Ctx) -> Box<dyn Iterator<Item = TagCase>> {
+    let ns: &[usize] = if ctx.tier == Tier::Thorough { &[0, 1, 2, 3, 5] } else { &[0, 1, 2] };
+    let mut v = Vec::new();
+    for kind in 1u32..=21 {
+        for &n in ns {
+            for sel in [0u32, 1, 0x0001_0002] {
+                if sel > 0 && !matches!(kind, 8 | 9 | 17) {
+                    continue;
+                }
+                let base = mb2_model::encode::conformant_tag(kind, 0xC01, n, sel);
+                if base.len() > 200 && n > 0 {
+                    continue;
+                }
+                let sizes: Vec<usize> = if base.len() > 200 { (base.len() - 24..=base.len() + 16).collect() } else { (8..=base.len() + 16).collect() };
+                for size in sizes {
+                    let mut img = base.clone();
+                    img.resize(r8(size), 0x5A);
+                    put32(&mut img, 4, size as u32);
+                    v.push(TagCase { img: Hex(img), kind, excluded: 0 });
+                }
+            }
+        }
+    }
+    Box::new(v.into_iter())
+}
+
 fn tag_strategy(_: &Ctx) -> BoxedStrategy<TagCase> {
     let open = known::open(D16_SIG).is_some();
     (gen::tag_spec(3), 0u32..=21, 0u8..4)
@@ -346,12 +376,12 @@ pub fn subs() -> Vec<Box<dyn Sub>> {
         }),
         Box::new(PropSub::<TagCase> {
             name: "single-tag",
-            rule: "stand-alone adversarial tag image (padded to 8) ending at a PROT_NONE page, viewed through DynSizedStructure::<TagHeader>::ref_from_slice(..).cast::<T>() as each of the 22 built-in kinds (half of the time as its own kind) with all accessors/iterators/Debug: any read of even one byte beyond the tag's padded extent faults. Non-trivial = the typed view was obtained; distinct by hash(image, kind)",
+            rule: "stand-alone tag image ending at a PROT_NONE page - enumerated: every kind's conformant image at every declared size 8..=len+16, cut or padded to that size (counts and indices inside keep their values); generated: adversarial images - viewed through DynSizedStructure::<TagHeader>::ref_from_slice(..).cast::<T>() as each of the 22 built-in kinds (half of the time as its own kind) with all accessors/iterators/Debug: any read of even one byte beyond the tag's padded extent faults. Non-trivial = the typed view was obtained; distinct by hash(image, kind)",
             profiles: Profiles::Both,
             quick: 9000,
             thorough: 400000,
             strategy: tag_strategy,
-            enumerate: None,
+            enumerate: Some(enumerate_tags),
             enum_exhaustive: false,
             eval: eval_tag,
         }),
